@@ -34,6 +34,65 @@ fn rand_sexpr(rng: &mut Rng, depth: usize, names: &[usize]) -> (Value, String) {
     }
 }
 
+/// formulas that mention the same sub-terms several times and favour three-argument Ite: within one run of a tool the
+/// apply cache then sees related triples over shared sub-diagrams (implications and their converses, x ? y : !x shapes)
+fn shared_sexpr(rng: &mut Rng, names: &[usize]) -> (Value, String) {
+    let np = rng.range(2, 3);
+    let pool: Vec<(Value, String)> = (0..np).map(|_| { let d = rng.range(0, 2); rand_sexpr(rng, d, names) }).collect();
+    fn go(rng: &mut Rng, depth: usize, pool: &[(Value, String)]) -> (Value, String) {
+        if depth == 0 || rng.chance(1, 5) {
+            let (j, t) = rng.pick(pool).clone();
+            return if rng.chance(1, 3) { (json!(["not", j]), format!("(Not {})", t)) } else { (j, t) };
+        }
+        match rng.below(7) {
+            0 => {
+                let (j, t) = go(rng, depth - 1, pool);
+                (json!(["not", j]), format!("(Not {})", t))
+            }
+            k @ 1..=3 => {
+                let (j1, t1) = go(rng, depth - 1, pool);
+                let (j2, t2) = go(rng, depth - 1, pool);
+                let (tag, kw) = [("and", "And"), ("or", "Or"), ("iff", "Iff")][k - 1];
+                (json!([tag, j1, j2]), format!("({} {} {})", kw, t1, t2))
+            }
+            _ => {
+                let (j1, t1) = go(rng, depth - 1, pool);
+                let (j2, t2) = go(rng, depth - 1, pool);
+                let (j3, t3) = go(rng, depth - 1, pool);
+                (json!(["ite", j1, j2, j3]), format!("(Ite {} {} {})", t1, t2, t3))
+            }
+        }
+    }
+    go(rng, 3, &pool)
+}
+
+/// an implication X -> Y written in one of several ways (with Or, with a three-argument Ite whose else-branch is the negated
+/// guard, with a negated conjunction), combined with the converse Y -> X over the SAME two sub-terms: after cofactoring, the
+/// tool's apply cache meets ite(f, g, true) shapes and their mirror images within one run
+fn implication_sexpr(rng: &mut Rng, names: &[usize]) -> (Value, String) {
+    let dx = rng.range(0, 1);
+    let dy = rng.range(0, 1);
+    let x = rand_sexpr(rng, dx, names);
+    let y = rand_sexpr(rng, dy, names);
+    let imp = |rng: &mut Rng, a: &(Value, String), b: &(Value, String)| -> (Value, String) {
+        let (ja, ta, jb, tb) = (&a.0, &a.1, &b.0, &b.1);
+        match rng.below(4) {
+            0 => (json!(["or", ["not", ja], jb]), format!("(Or (Not {ta}) {tb})")),
+            1 => (json!(["ite", ja, jb, ["not", ja]]), format!("(Ite {ta} {tb} (Not {ta}))")),
+            2 => (json!(["not", ["and", ja, ["not", jb]]]), format!("(Not (And {ta} (Not {tb})))")),
+            _ => (json!(["ite", jb, jb, ["not", ja]]), format!("(Ite {tb} {tb} (Not {ta}))")),
+        }
+    };
+    let p = imp(rng, &x, &y);
+    let q = imp(rng, &y, &x);
+    let (tag, kw) = *rng.pick(&[("and", "And"), ("or", "Or"), ("iff", "Iff"), ("xor", "Xor")]);
+    if rng.coin() {
+        (json!([tag, p.0, q.0]), format!("({kw} {} {})", p.1, q.1))
+    } else {
+        (json!([tag, q.0, p.0]), format!("({kw} {} {})", q.1, p.1))
+    }
+}
+
 fn names_in(j: &Value, acc: &mut Vec<String>) {
     let a = j.as_array().unwrap();
     if a[0] == "var" {
@@ -73,7 +132,11 @@ pub fn record(args: &Args) {
         let k = rng.range(1, 4);
         let mut pick = rng.perm(NAMES.len());
         pick.truncate(k);
-        let (sj, text) = rand_sexpr(&mut rng, 3, &pick);
+        let (sj, text) = match rng.below(4) {
+            0 => implication_sexpr(&mut rng, &pick),
+            1 => shared_sexpr(&mut rng, &pick),
+            _ => rand_sexpr(&mut rng, 3, &pick),
+        };
         let mut used = vec![];
         names_in(&sj, &mut used);
         // weights: for (most of) the formula's variables and possibly one or two extra names
